@@ -271,7 +271,15 @@ func c09run(c *mon.Ctx, pool *c09pool, cs c09case, rng *rand.Rand) {
 			if cs.variant%3 != 0 {
 				res = pool.el[rng.Intn(len(pool.el))] // an accumulator re-used across calls
 			}
-			_, err = res.MultiExp(pts, ls, banderwagon.MultiExpConfig{NbTasks: cs.tasks, ScalarsMont: cs.mont})
+			if cs.n > 0 && cs.variant == 4 && len(pts) > 0 {
+				// the receiver is one of the input points (result overwrites an operand)
+				j := rng.Intn(len(pts))
+				_, err = pts[j].MultiExp(pts, ls, banderwagon.MultiExpConfig{NbTasks: cs.tasks, ScalarsMont: cs.mont})
+				res = pts[j]
+				pts[j] = snapP[j]
+			} else {
+				_, err = res.MultiExp(pts, ls, banderwagon.MultiExpConfig{NbTasks: cs.tasks, ScalarsMont: cs.mont})
+			}
 		} else {
 			res, err = ipa.MultiScalar(pts, ls)
 		}
